@@ -101,6 +101,8 @@ class UnitResult:
         self.trusted = []
         self.canary_missing = []
         self.canary_total = 0
+        self.tobl_lines = {}
+        self.impl_of = {}
 
 
 def scan_trusted(gen_path):
@@ -179,6 +181,26 @@ def run_unit(unit, tier):
                 "props": f["safety_props"], "fn": f["id"], "line": m["ranges"][f["id"]][0],
                 "text": "implicit obligations of %s (%s:%d-%d): no overflow, no failing unwrap/index, callee preconditions, termination"
                         % (f["id"], f["source"], f["lines"][0], f["lines"][1])}
+    # obligations inherited from a trait-level contract: one per tagged trait clause and implementing function
+    tobl = {}
+    for e in m["lines"]:
+        if e.get("tobl") and e["fn"]:
+            tobl.setdefault(e["fn"], {})[e["line"]] = e["tobl"]
+    res.tobl_lines = {ln: (tf, tag) for tf, d in tobl.items() for ln, tag in d.items()}
+    res.impl_of = {}
+    for f in m["functions"]:
+        if f["id"].startswith("item:") or f.get("assumed_here"):
+            continue
+        mm = re.search(r"impl(?:<[^>]*>)?\s+(\w+)(?:<[^>]*>)?\s+for\s+", f["path"])
+        meth = re.search(r"fn\s+(\w+)\s*$", f["path"])
+        if mm and meth:
+            tf = "%s.%s" % (mm.group(1).lower(), meth.group(1))
+            if tf in tobl:
+                res.impl_of[f["id"]] = tf
+                for ln, tag in tobl[tf].items():
+                    res.obligations["%s.%s" % (f["id"], tag)] = {
+                        "props": f["safety_props"], "fn": f["id"], "line": ln,
+                        "text": "[%s of trait contract, for %s] %s" % (tag, f["id"], _clause_text(gl, ln).replace("// @tobl " + tag, "").strip())}
     res.trusted = scan_trusted(gen)
     rl = 10 if tier == "quick" else 50
     me = 4 if tier == "quick" else 12
@@ -235,14 +257,26 @@ def _digest(res, run, m):
             continue
         # semantic: find the obligation
         obl = None
+        # a trait-level clause violated by an implementing function
+        tl = getattr(res, "tobl_lines", {})
+        ttag = None
+        for sp in spans:
+            for ln in range(sp["line_start"], sp["line_end"] + 1):
+                if ln in tl:
+                    ttag = tl[ln]
+        if ttag:
+            for sp in spans:
+                fn = _fn_of_line(m, sp["line_start"])
+                if fn and res.impl_of.get(fn) == ttag[0]:
+                    obl = "%s.%s" % (fn, ttag[1])
         for s in sorted(spans, key=lambda s: not s.get("is_primary")):
+            if obl:
+                break
             for ln in range(s["line_start"], s["line_end"] + 1):
                 e = idx.get(ln)
                 if e and e["obl"]:
                     obl = e["obl"]
                     break
-            if obl:
-                break
         if not obl:
             # implicit obligation: attribute to the function that contains a span (prefer call sites = non primary)
             fn = None
